@@ -11,9 +11,9 @@
 EXTENDS Naturals, Integers, Sequences, FiniteSets, TLC
 
 UserNames == {"a", "b", "c"}
-DeclNames == UserNames \cup {"max_retries", "retry_on_error"}
+DeclNames == UserNames \cup {"max_retries", "retry_on_error", "timeout"}
 Names == DeclNames \cup {"_retries", "X-Taskiq-requeue"}
-NameOrder == <<"X-Taskiq-requeue", "_retries", "a", "b", "c", "max_retries", "retry_on_error">>
+NameOrder == <<"X-Taskiq-requeue", "_retries", "a", "b", "c", "max_retries", "retry_on_error", "timeout">>
 NoLab == [n \in Names |-> 0]
 
 HasUnknownName(seq) == \E i \in DOMAIN seq : seq[i].n \notin Names
@@ -112,7 +112,7 @@ ClCheck(c, op, o, ev) ==
   \cup (IF ev.e = "seen" /\ ev.j \in DOMAIN o.msg
            /\ (HasUnknownName(ev.lab)
                \/ Restrict(LabFun(ev.lab), DeclNames) # Restrict(o.msg[ev.j].exp, DeclNames)
-               \/ (ev.pt # "res" /\ LabFun(ev.lab) # o.msg[ev.j].exp))
+               \/ (ev.pt \in {"mw", "ctx"} /\ LabFun(ev.lab) # o.msg[ev.j].exp))
         THEN {"C09_TypedEndToEnd"} ELSE {})
   \cup (IF ev.e \in {"seen", "exec", "save"} /\ ev.j \in DOMAIN o.msg /\ ev.tid # o.msg[ev.j].tid
         THEN {"C09_TaskIdAtWorker"} ELSE {})
